@@ -655,6 +655,8 @@ class World:
 
     def _check_remove(self, ctx, path, pclass, tree=False):
         """Maintenance oracle: a process may only delete cache files unused for 30 days."""
+        if ctx.op['k'] == 'clearcache':
+            return                           # the user asked for it
         if tree:
             d = self.fs.h_node(path)
             if d is not None and d.is_dir and pclass != 'src' and not ctx.injected:
@@ -874,6 +876,17 @@ class World:
             # `rm -rf` of the cache directory / parso.cache.clear_cache(): entry by entry, every call a
             # seam step, so that another process can be anywhere in its load / save meanwhile
             d = os.fspath(self.cdir(op.get('c', 0)))
+            if op.get('api'):
+                # the library's own entry point for it
+                try:
+                    pc.clear_cache(cache_path=Path(d))
+                except SimCrash:
+                    return ('crash',)
+                except (HarnessError, StepCap):
+                    raise
+                except BaseException as e:           # e.g. FileNotFoundError: nothing to clear
+                    return ('exc', e)
+                return ('noop',)
             try:
                 for dirpath, dirnames, filenames in os.walk(d, topdown=False):
                     for name in filenames:
